@@ -322,7 +322,9 @@ func run(r *mon.Run) {
 			// also after a write/read round trip
 			judgeFile(r, s, s.file, "honest", "roundtrip", 50)
 			for name, t := range map[string]time.Time{"date-1s": s.spec.Date.Add(-time.Second), "date-1ns": s.spec.Date.Add(-time.Nanosecond), "date+0.5s": s.spec.Date.Add(500 * time.Millisecond),
-				"expires+1ns": s.spec.Expires.Add(time.Nanosecond), "expires+0.5s": s.spec.Expires.Add(500 * time.Millisecond), "expires+1s": s.spec.Expires.Add(time.Second), "year-later": s.spec.Expires.Add(365 * 24 * time.Hour), "epoch": time.Unix(0, 0)} {
+				"expires+1ns": s.spec.Expires.Add(time.Nanosecond), "expires+0.5s": s.spec.Expires.Add(500 * time.Millisecond), "expires+1s": s.spec.Expires.Add(time.Second), "year-later": s.spec.Expires.Add(365 * 24 * time.Hour), "epoch": time.Unix(0, 0),
+				// values a caller passes by accident: the zero time.Time ("no clock"), the largest and smallest representable instants
+				"zero-time": {}, "zero-time-utc": time.Time{}.UTC(), "max-time": time.Unix(1<<62, 0), "min-time": time.Unix(-1<<62, 0), "year-9999": time.Date(9999, 12, 31, 23, 59, 59, 0, time.UTC)} {
 				judge(r, s, clone(s.e), t, fetch, "time", name, 20)
 			}
 		}
